@@ -151,9 +151,37 @@ PRMA_RULES = [
     (r"return opt_->infiniteCost\(\);", "return INFC;", 0),
 ]
 UNITS.append(dict(name="c01_prm_constructApproximateSolution", template="C01/prm_approx.c", mode="plain", entry="h_prm_approx", flags=["--bounds-check", "--pointer-check", "--signed-overflow-check", "--conversion-check"], unwind=5,
-                  level="bounded", bound="<= 2 start, <= 2 goal, <= 3 roadmap vertices", backend="cadical", timeout=900, functions=["ompl::geometric::PRM::constructApproximateSolution"],
+                  level="bounded", bound="<= 2 start, <= 2 goal, <= 3 roadmap vertices", backend="minisat", timeout=900, functions=["ompl::geometric::PRM::constructApproximateSolution"],
                   sources=[dict(name="approx", file=PRMF, sig=r"ompl::base::Cost ompl::geometric::PRM::constructApproximateSolution\(const std::vector<Vertex> &starts,\s*const std::vector<Vertex> &goals,\s*base::PathPtr &solution\)", rules=PRMA_RULES, loops={"allow_uncontracted": True})],
                   canaries=[dict(name="flag_not_rearmed", where="body:approx", rx=r"closestVal = heuristicCost;\s*approxPathJustStart = true;", repl="closestVal = heuristicCost;")]))
+
+# ---------------------------------------------------------------- SBL::isPathValid / checkSolution (bounded)
+SBLF = "src/ompl/geometric/planners/sbl/src/SBL.cpp"
+SBL_RULES = [
+    (r"Grid<MotionInfo>::Coord coord\(projectionEvaluator_->getDimension\(\)\);", "", 0), (r"projectionEvaluator_->computeCoordinates\(motion->state, coord\);", "", 0),
+    (r"Grid<MotionInfo>::Cell \*cell = otherTree\.grid\.getCell\(coord\);", "Motion cell_pick = PICK_OTHER(motion);", 0), (r"if \(cell && !cell->data\.empty\(\)\)", "if (cell_pick != NIL)", 0),
+    (r"Motion \*connectOther = cell->data\[rng_\.uniformInt\(0, cell->data\.size\(\) - 1\)\];", "Motion connectOther = cell_pick;", 0),
+    (r"pdef_->getGoal\(\)->isStartGoalPairValid\(start \? motion->root : connectOther->root,\s*start \? connectOther->root : motion->root\)", "PAIRVALID(start ? ROOT[motion] : ROOT[connectOther], start ? ROOT[connectOther] : ROOT[motion])", 0),
+    (r"auto \*connect = new Motion\(si_\);", "Motion connect = NEW_MOTION();", 0), (r"si_->copyState\(connect->state, connectOther->state\);", "CID[connect] = CID[connectOther];", 0),
+    (r"connect->parent = motion;", "PARENT[connect] = motion;", 0), (r"connect->root = motion->root;", "ROOT[connect] = ROOT[motion];", 0), (r"motion->children\.push_back\(connect\);", "", 0),
+    (r"addMotion\(tree, connect\);", "ADD_MOTION(tree, connect);", 0), (r"\bisPathValid\(", "sbl_isPathValid(", 0),
+    (r"connectionPoint_ = std::make_pair\([^;]*\);", ";", 0),
+    (r"std::vector<Motion \*> (\w+);", r"VEC(\1);", 0), (r"(\w+)\.push_back\((\w+)\);", lambda m: ("SOL_PUSH(%s);" % m.group(2)) if m.group(1) == "solution" else "PUSH(%s, %s);" % (m.group(1), m.group(2)), 0),
+    (r"solution\.push_back\(mpath1\[i\]\);", "SOL_PUSH(mpath1[i]);", 0),
+    (r"(\w+) = \1->parent;", r"\1 = PARENT[\1];", 0), (r"(\w+) != nullptr", r"\1 != NIL", 0),
+    (r"mpath1\.swap\(mpath2\);", "SWAPV(mpath1, mpath2);", 0), (r"(mpath\w*)\.size\(\)", r"(int)\1_n", 0),
+    (r"solution\.insert\(solution\.end\(\), mpath2\.begin\(\), mpath2\.end\(\)\);", "for (size_t k_ = 0; k_ < mpath2_n; ++k_) SOL_PUSH(mpath2[k_]);", 0),
+    (r"si_->checkMotion\(mpath\[i\]->parent->state, mpath\[i\]->state\)", "CM(PARENT[mpath[i]], mpath[i])", 0), (r"!mpath\[i\]->valid", "!VALID[mpath[i]]", 0), (r"mpath\[i\]->valid = true;", "SET_VALID(mpath[i]);", 0),
+    (r"removeMotion\(tree, mpath\[i\]\);", "REMOVE(tree, mpath[i]);", 0),
+]
+SBL_SRC = [
+    dict(name="isPathValid", file=SBLF, sig=r"bool ompl::geometric::SBL::isPathValid\(TreeData &tree, Motion \*motion\)", rules=SBL_RULES, loops={"allow_uncontracted": True}),
+    dict(name="checkSolution", file=SBLF, sig=r"bool ompl::geometric::SBL::checkSolution\(bool start, TreeData &tree, TreeData &otherTree, Motion \*motion,\s*std::vector<Motion \*> &solution\)", rules=SBL_RULES, loops={"allow_uncontracted": True}),
+]
+for nm, ent, fn, can in (("c01_sbl_isPathValid", "h_sbl_isPathValid", "ompl::geometric::SBL::isPathValid", [dict(name="marks_without_check", where="body:isPathValid", rx=r"if \(CM\(PARENT\[mpath\[i\]\], mpath\[i\]\)\)", repl="if (CM(PARENT[mpath[i]], mpath[i]) || 1)")]),
+                         ("c01_sbl_checkSolution", "h_sbl_checkSolution", "ompl::geometric::SBL::checkSolution", [dict(name="junction_not_validated", where="body:checkSolution", rx=r"sbl_isPathValid\(tree, connect\)", repl="sbl_isPathValid(tree, motion)")])):
+    UNITS.append(dict(name=nm, template="C01/sbl.c", mode="plain", entry=ent, flags=["--bounds-check", "--pointer-check", "--signed-overflow-check", "--conversion-check"], unwind=10, level="bounded", bound="branches of <= 3 motions per tree",
+                      backend="minisat", timeout=900, functions=[fn], sources=SBL_SRC, canaries=can))
 
 ASSUMPTIONS = ["start states are addressed by index; bounds/validity of the start state at the ghost index are arbitrary fixed values", "exceptions (missing problem definition) are outside the modelled paths"]
 TRUSTED = ["extraction rewrite tables of units/C01.py, units/C17.py", "stubs in units/C01/inputs.c, units/C17/pathgeom.c", "CBMC 6.11 DFCC + minisat"]
